@@ -176,8 +176,8 @@ class StructureMetaType(MetaType):
         """
         # The current offset, set to None if we become dynamic
         offset = 0
-        # The current alignment for this structure
-        alignment = 0
+        # The current alignment for this structure (a structure without any fields can go anywhere)
+        alignment = 1
 
         # The current bit field type
         bits_type = None
